@@ -283,6 +283,12 @@ def scenEvEnc (es obs : String) : Verdict :=
     let a := showEncodedShort e
     if a == obs then .ok else .prop "C11" "encoding differs from the published layout" a
 
+/-- `ev_ref <event>`: the harness' own reference encoding against the published layout (a generator self-check) -/
+def scenEvRef (es obs : String) : Verdict :=
+  match parseEvent es with
+  | none => .bad "parse"
+  | some e => if showEncodedShort e == obs then .ok else .bad "GENERATOR: the harness' reference encoder differs from the published layout"
+
 def scenEvRt (es obs : String) : Verdict :=
   match parseEvent es with
   | none => .bad "parse"
@@ -872,6 +878,7 @@ def judge (inp obs : String) : Verdict :=
   | ["frt", path, p] => scenFrt path p obs
   | ["builder", f0, fs] => scenBuilder f0 fs obs
   | ["ev_enc", e] => scenEvEnc e obs
+  | ["ev_ref", e] => scenEvRef e obs
   | ["ev_rt", e] => scenEvRt e obs
   | ["ev_dec", k, p] => scenEvDec k p obs
   | ["ev_cross", p] => scenEvCross p obs
